@@ -259,8 +259,8 @@ pub fn worker_main(a: WorkerArgs) -> i32 {
                 match g.viol.get_mut(&k) {
                     Some(r) => r.count += 1,
                     None => {
-                        let case_json = match st.violating_case.take() {
-                            Some(c) => c,
+                        let case_json = match st.violating_cases.iter().find(|(c0, k0, _)| *c0 == vi.class && *k0 == vi.key) {
+                            Some((_, _, c)) => c.clone(),
                             None => serde_json::to_value(&case).unwrap(),
                         };
                         g.viol.insert(
